@@ -10,16 +10,18 @@ Inductive case :=
    [tm] = the configured CoordinatorTimeout / TssTimeout in ms; [m] = size of the peer table;
    [unreach]: from the failure on every Broadcast that addresses one of these peers returns a
    CommunicationError; [msgs2] carry the time (ms after the wait began) before which the runner does
-   not deliver them *)
+   not deliver them; [bs]: what arrives during the bully election (after this relayer's own announcement),
+   in arrival order, from candidates, excluded culprits and peers without key *)
 | Fail (keys : list N) (tm : timing) (m : nat) (holders : list peer) (t : Z) (self : peer) (pk : proc_kind) (impl_retryable : bool)
        (ready1 start1 : list peer) (e : err) (unreach : list peer)
-       (winner : option peer) (ready2 : list peer) (msgs2 : list (N * wmsg)) (impl : obs)
+       (bs : list bmsg) (ready2 : list peer) (msgs2 : list (N * wmsg)) (impl : obs)
 (* the coordinator of the first attempt sends no start message: the failure is the implementation's own
    CoordinatorError after CoordinatorTimeout; [msgs1] = what arrives meanwhile (forged traffic of other
-   peers, the coordinator's initiate messages), with arrival times *)
+   peers, the coordinator's initiate messages), with arrival times; [impl_ready1] = the ready messages
+   of the first attempt *)
 | Silent (keys : list N) (tm : timing) (m : nat) (holders : list peer) (t : Z) (self : peer) (pk : proc_kind) (impl_retryable : bool)
          (msgs1 : list (N * wmsg)) (unreach : list peer)
-         (winner : option peer) (ready2 : list peer) (msgs2 : list (N * wmsg)) (impl : obs)
+         (bs : list bmsg) (ready2 : list peer) (msgs2 : list (N * wmsg)) (impl_ready1 : list peer) (impl : obs)
 (* two real relayers over one network: [a] coordinates (ready stream [ready1]), [c] is another key
    holder; [msgs2] are offered to [c] after it was left out *)
 | Duo (keys : list N) (tm : timing) (m : nat) (holders : list peer) (t : Z) (a c : peer)
@@ -52,32 +54,45 @@ Definition obs_eqb (a b : obs) : bool :=
   && N.eqb (o_final a) (o_final b)
   && lists_eqb (o_inits2 a) (o_inits2 b) && calls_eqb (o_starts a) (o_starts b).
 
-Definition model (c : case) : obs :=
+(* [br]: the election's outcome rule *)
+Definition model_with (br : (peer -> N) -> peer -> list bmsg -> list peer -> peer) (c : case) : obs :=
   match c with
-  | Fail keys tm m holders t self pk _ ready1 start1 e _ winner ready2 msgs2 _ =>
-      session (key_of keys) tm m classify holders t self (retryable_of pk) ready1 start1 e winner ready2 msgs2
-  | Silent keys tm m holders t self pk _ msgs1 _ winner ready2 msgs2 _ =>
-      session_silent (key_of keys) tm m classify holders t self (retryable_of pk) msgs1 winner ready2 msgs2
+  | Fail keys tm m holders t self pk _ ready1 start1 e _ bs ready2 msgs2 _ =>
+      session (key_of keys) tm m (br (key_of keys)) classify holders t self (retryable_of pk) ready1 start1 e bs ready2 msgs2
+  | Silent keys tm m holders t self pk _ msgs1 _ bs ready2 msgs2 _ _ =>
+      session_silent (key_of keys) tm m (br (key_of keys)) classify holders t self (retryable_of pk) msgs1 bs ready2 msgs2
   | Duo keys tm m holders t a c ready1 msgs2 _ _ =>
-      duo_c (key_of keys) tm m classify holders t a c ready1 msgs2
+      duo_c (key_of keys) tm m (br (key_of keys)) classify holders t a c ready1 msgs2
   end.
+
+(* the election rule as coded (a peer outside the candidate list ranks level with the first candidate) *)
+Definition model (c : case) : obs := model_with bully_coded c.
+(* the repaired rule (messages of peers outside the candidate list are dropped); the two differ only on
+   cases in which such a peer announces itself to a relayer whose current coordinator is not the first
+   candidate - there the judge rejects what the rule as coded does *)
+Definition model_repaired (c : case) : obs := model_with bully_strict c.
+
+Definition agree_obs (c : case) (impl : obs) : bool :=
+  obs_eqb (model c) impl || obs_eqb (model_repaired c) impl.
 
 Definition agree (c : case) : bool :=
   match c with
-  | Fail _ _ _ _ _ _ pk r _ _ _ _ _ _ _ impl => Bool.eqb (retryable_of pk) r && obs_eqb (model c) impl
-  | Silent _ _ _ _ _ _ pk r _ _ _ _ _ impl => Bool.eqb (retryable_of pk) r && obs_eqb (model c) impl
+  | Fail _ _ _ _ _ _ pk r _ _ _ _ _ _ _ impl => Bool.eqb (retryable_of pk) r && agree_obs c impl
+  | Silent keys tm _ holders _ _ pk r msgs1 _ _ _ _ ready1 impl =>
+      Bool.eqb (retryable_of pk) r && agree_obs c impl
+      && list_peer_eqb (silent_readies (key_of keys) tm holders msgs1) ready1
   | Duo keys _ m holders t a _ ready1 _ impl_a impl_c =>
-      obs_eqb (duo_a (key_of keys) m holders t a ready1) impl_a && obs_eqb (model c) impl_c
+      obs_eqb (duo_a (key_of keys) m holders t a ready1) impl_a && agree_obs c impl_c
   end.
 
 Definition judge (c : case) : bool :=
   match c with
-  | Fail keys tm m holders t self pk _ ready1 start1 e unreach winner ready2 msgs2 impl =>
+  | Fail keys tm m holders t self pk _ ready1 start1 e unreach bs ready2 msgs2 impl =>
       match o_runs impl with
       | [] => true                      (* the first attempt never ran: nothing failed *)
       | _ :: _ => spec_ok (mkEnv tm holders t self unreach ready2 msgs2) (retryable_of pk) e 1 impl
       end
-  | Silent keys tm m holders t self pk _ msgs1 unreach winner ready2 msgs2 impl =>
+  | Silent keys tm m holders t self pk _ msgs1 unreach bs ready2 msgs2 _ impl =>
       match coordinator (key_of keys) holders with
       | Some c => silent_ok (mkEnv tm holders t self unreach ready2 msgs2) (retryable_of pk) c msgs1 impl
       | None => true
@@ -91,10 +106,18 @@ Definition outcome_tag (o : outcome) : N :=
 
 Definition tag (c : case) : N :=
   match c with
-  | Fail keys tm m holders t self pk _ ready1 start1 e unreach winner ready2 msgs2 _ =>
+  | Fail keys tm m holders t self pk _ ready1 start1 e unreach bs ready2 msgs2 _ =>
       (outcome_tag (after_failure (retryable_of pk) holders e)
        + (if opt_peer_eqb (coordinator (key_of keys) holders) self then 0 else 4)
-       + (match winner with None => 0 | Some _ => 8 end)
+       + (match bs with [] => 0 | _ => 8 end)
+       (* 2048 = a peer that is not an election candidate takes part in the election, 4096 = the rule as
+          coded lets it win *)
+       + (match after_failure (retryable_of pk) holders e with
+          | Retried cands _ =>
+              (if forallb (from_candidate cands) bs then 0 else 2048)
+              + (if bully_guarded (bully_coded (key_of keys) self bs cands) self cands then 0 else 4096)
+          | _ => 0
+          end)
        (* left out: 32 = a start message arrives between the two timeouts, 64 = after the TSS timeout *)
        + (match after_failure (retryable_of pk) holders e with
           | Waited =>
@@ -106,7 +129,7 @@ Definition tag (c : case) : N :=
           end)
        (* 128 = some peers cannot be reached from the failure on *)
        + (match unreach with [] => 0 | _ => 128 end))%N
-  | Silent keys tm m holders t self pk _ msgs1 unreach _ _ _ _ =>
+  | Silent keys tm m holders t self pk _ msgs1 unreach _ _ _ _ _ =>
       match silent_error (key_of keys) holders with
       | Some e => (16 + outcome_tag (after_failure (retryable_of pk) holders e)
                    (* 256 = traffic during the first attempt, 512 = unresponsive in the specification's sense *)
